@@ -83,4 +83,16 @@ theorem float_repr_examples :
     (FloatLit.fin false 17976931348623159 292).toF64 = .inf false := by
   decide +kernel
 
+/-! ## the hypotheses of the theorems above (and of test_sound / test_strict_float_sound in C05Types, whose own
+example is a lax test) are satisfiable with the driver's environment (real float repr) -/
+
+-- test_strict_float_sound / test_strict_implies_lax / float_de_ser_valid
+example : test ⟨Env.ascii, fun _ => false, pyFloatReprD Env.ascii⟩ [' ', '1', 'E', '2', '2'] [.float] true {} = true ∧
+    floatDeserialize ⟨Env.ascii, fun _ => false, pyFloatReprD Env.ascii⟩ ['1', 'e', '2', '2'] = some ⟨['1', 'e', '+', '2', '2']⟩ := by
+  decide +kernel
+
+-- shortest_search_sound (the double nearest 0.1)
+example : shortestSearch 7205759403792794 (-56) 7205759403792794 72057594037927936 0 18 1 = some (1, 1) := by
+  decide +kernel
+
 end Props.C05
